@@ -19,9 +19,13 @@ def notIn (loOpen hiOpen : Bool) (lo hi v : α) : Bool :=
   !((if loOpen then Num.lt lo v else Num.le lo v) && (if hiOpen then Num.lt v hi else Num.le v hi))
 
 def minN (n : Int) : Bool × Err := (decide (n < 1), Err.value)
+/-- `not value > 0` (rejects NaN, unlike `value <= 0`) -/
+def notPos (v : α) : Bool := !(Num.gt v z)
+/-- `not value >= 0` -/
+def notNonneg (v : α) : Bool := !(Num.ge v z)
 
 def spc (warn drift : α) (n : Int) : List (Bool × Err) :=
-  [minN n, (Num.le warn z, Err.value), (Num.le drift z, Err.value), (Num.le drift warn, Err.value)]
+  [minN n, (notPos warn, Err.value), (notPos drift, Err.value), (Num.le drift warn, Err.value)]
 
 def ddm (warn drift : α) (n : Int) : Option Err := firstErr (spc warn drift n)
 def rddm (warn drift : α) (n maxConcept minConcept maxWarn : Int) : Option Err :=
@@ -29,7 +33,7 @@ def rddm (warn drift : α) (n maxConcept minConcept maxWarn : Int) : Option Err 
   firstErr (spc warn drift n ++ [(decide (minConcept < 1), Err.value)])
 def eddm (alpha beta level : α) (minMis : Int) : Option Err :=
   let _ := alpha
-  firstErr [(Num.le beta z, Err.value), (Num.ge beta alpha, Err.value), (Num.le level z, Err.value), (decide (minMis < 0), Err.value)]
+  firstErr [(notPos beta, Err.value), (Num.ge beta alpha, Err.value), (notPos level, Err.value), (decide (minMis < 0), Err.value)]
 def hddmBase (alphaD alphaW : α) (n : Int) : List (Bool × Err) :=
   [minN n, (notIn true false z o alphaD, Err.value), (notIn true false z o alphaW, Err.value), (Num.le alphaW alphaD, Err.value)]
 def hddma (alphaD alphaW : α) (n : Int) : Option Err := firstErr (hddmBase alphaD alphaW n)
@@ -41,24 +45,24 @@ def ecdd (lam warn : α) (arl n : Int) : Option Err :=
 def adwin (delta : α) (clock m minWindow n : Int) : Option Err :=
   firstErr [minN n, (decide (clock < 1), Err.value), (notIn true true z o delta, Err.value), (decide (m < 1), Err.value), (decide (minWindow < 1), Err.value)]
 def kswin (alpha : α) (n numTest : Int) : Option Err :=
-  firstErr [minN n, (Num.le alpha z, Err.value), (decide (numTest > n / 2), Err.value), (decide (numTest < 1), Err.value)]
+  firstErr [minN n, (notPos alpha, Err.value), (decide (numTest > n / 2), Err.value), (decide (numTest < 1), Err.value)]
 def stepd (alphaD alphaW : α) (n : Int) : Option Err :=
-  firstErr [minN n, (Num.le alphaD z, Err.value), (Num.le alphaW z, Err.value), (Num.le alphaW alphaD, Err.value)]
+  firstErr [minN n, (notPos alphaD, Err.value), (notPos alphaW, Err.value), (Num.le alphaW alphaD, Err.value)]
 def cusum (lam delta : α) (n : Int) : Option Err :=
-  firstErr [minN n, (Num.lt lam z, Err.value), (notIn false false z o delta, Err.value)]
+  firstErr [minN n, (notNonneg lam, Err.value), (notIn false false z o delta, Err.value)]
 def pageHinkley (lam delta alpha : α) (n : Int) : Option Err :=
-  firstErr [minN n, (Num.lt lam z, Err.value), (notIn false false z o delta, Err.value), (notIn false false z o alpha, Err.value)]
+  firstErr [minN n, (notNonneg lam, Err.value), (notIn false false z o delta, Err.value), (notIn false false z o alpha, Err.value)]
 def gma (lam alpha : α) (n : Int) : Option Err :=
-  firstErr [minN n, (Num.lt lam z, Err.value), (notIn false false z o alpha, Err.value)]
+  firstErr [minN n, (notNonneg lam, Err.value), (notIn false false z o alpha, Err.value)]
 /-- `GaussianUnknownMean(prior_mean, prior_var, data_var)` -/
 def gaussian (priorVar dataVar : α) : Option Err :=
-  firstErr [(Num.beq priorVar z, Err.zeroDivision), (Num.le dataVar z, Err.value)]
+  firstErr [(Num.beq priorVar z, Err.zeroDivision), (notPos dataVar, Err.value)]
 def permutation (numPerm : Int) (total : Option Int) (numJobs : Int) (methodOk : Bool) : Option Err :=
   firstErr [(decide (numPerm < 1), Err.value), (decide (numPerm > 1000000), Err.value),
             (match total with | none => false | some t => decide (t < 1), Err.value),
             (match total with | none => false | some t => decide (t > 1000000), Err.value),
             (numJobs == 0 || decide (numJobs < -1), Err.value), (!methodOk, Err.value)]
-def resetCallback (alpha : α) : Option Err := firstErr [(Num.le alpha z, Err.value)]
+def resetCallback (alpha : α) : Option Err := firstErr [(notPos alpha, Err.value)]
 def chunkSize (cs : Option Int) : Option Err := firstErr [(match cs with | none => false | some c => decide (c ≤ 0), Err.value)]
 def positiveInt (v : Int) : Option Err := firstErr [(decide (v < 1), Err.value)]      -- num_bins, window_size
 def prequential (alpha : α) : Option Err := firstErr [(notIn true false z o alpha, Err.value)]
